@@ -125,6 +125,20 @@ func main() {
 				continue
 			}
 			can, ok := tgen.Canonical(r.HTML)
+			condClass := tgen.HasCondClass(it.p.Body)
+			if condClass {
+				// The generator evaluates the class expressions of an element in front of it; for those inside a
+				// conditional attribute the reference only says which ones may be evaluated at all (the taken
+				// branch), not how often the condition is looked at. Known finding: all of them are evaluated.
+				if ok && re.MatchString(can) && sameSet(r.Log, wantLog) {
+					continue
+				}
+				re2, log2 := tgen.ExpectHoisted(it.p.Body, rt.Valuations[r.V])
+				if ok && re2.MatchString(can) && strings.Join(r.Log, ",") == strings.Join(log2, ",") {
+					run.Violation("class-expression-in-conditional-attribute-evaluated-unconditionally", fmt.Sprintf("%s (valuation %d): expressions evaluated %v, control flow reaches %v", it.p.Desc, r.V, r.Log, wantLog), replay)
+					continue
+				}
+			}
 			if !ok || !re.MatchString(can) {
 				key := "render:" + shape(it.p.Desc)
 				// is it only whitespace? compare with all spaces optional
@@ -161,6 +175,26 @@ func main() {
 	run.Assumption("whitespace: a kept separator is demanded only between text, expressions and the conservative inline-element set; no whitespace may appear where the source has none; everything else may or may not keep a space")
 	run.Assumption("argument values contain no whitespace and are never empty; css/script templates are exercised by C12/C03/C05")
 	run.Finish(renders, len(acc), "every single node constructor in every container, every ordered pair of 29 constructors × separator {none, space, newline} × containers, depth-2 container nestings, attribute-kind sequences ≤ N on 5 elements (thorough: triples, all containers), each rendered under 8 valuations; distinct = accepted programs")
+}
+
+// sameSet: both logs mention the same evaluations (order and repetition aside).
+func sameSet(a, b []string) bool {
+	ma, mb := map[string]bool{}, map[string]bool{}
+	for _, x := range a {
+		ma[x] = true
+	}
+	for _, x := range b {
+		mb[x] = true
+	}
+	if len(ma) != len(mb) {
+		return false
+	}
+	for x := range ma {
+		if !mb[x] {
+			return false
+		}
+	}
+	return true
 }
 
 func firstLine(s string) string {
